@@ -162,6 +162,27 @@ func (w *World) axiomsFor(terms []*Term) []string {
 			out = append(out, fmt.Sprintf("(assert (and (< %s 0) (= (sub$inv %s) %s) (= (sub$tag %s) %d)))", k, k, g.Args[0].String(), k, tag))
 		}
 	}
+	// inline-array storage: refs below every allocated and constant ref, injective per field
+	arrNames := map[string]bool{}
+	var arrList []string
+	for _, n := range names {
+		if strings.HasPrefix(n, "arrref$") {
+			arrNames[n] = true
+			arrList = append(arrList, n)
+		}
+	}
+	if len(arrNames) > 0 {
+		out = append(out, "(declare-fun arrref$inv (Int) Int)", "(declare-fun arrref$tag (Int) Int)")
+		ground := map[string]*Term{}
+		for _, t := range terms {
+			t.GroundApps(arrNames, ground)
+		}
+		for _, k := range sortedKeys(ground) {
+			g := ground[k]
+			tag := sort.SearchStrings(arrList, g.Name)
+			out = append(out, fmt.Sprintf("(assert (and (< %s (- 1000)) (= (arrref$inv %s) %s) (= (arrref$tag %s) %d)))", k, k, g.Args[0].String(), k, tag))
+		}
+	}
 	// box/unbox
 	boxGround := map[string]*Term{}
 	for _, t := range terms {
